@@ -211,8 +211,27 @@ def rule_out(ctx):
             if mname == 'ar':
                 want = [f'gpp.ugen_param(utl.as_list({chan}))', f'{chan}._as_ugen_input(cls)',
                         f'cls._replace_zeroes_with_silence({chan})']
-                ctx.ob('C03.out', f'{mod.name}:{ci.qualname}.ar:flatten-chain', steps == want and sv == chan,
-                       f'audio output must apply {want} before _multi_new; found {steps} then *{sv}', f.node, mod)
+                # necessary: the argument is made a list, zeros are replaced last, the result is what is passed on; the conversion to
+                # unit inputs in between is optional (_multi_new converts its arguments) now that the replacement copies.  The steps are
+                # composed into one expression so that one statement or three make no difference.
+                comp = chan
+                import re as _re
+                for st in steps:
+                    comp = _re.sub(rf'(?<![\w.]){_re.escape(chan)}\b', lambda m_: comp, st)
+                if sv != chan:
+                    comp = _re.sub(rf'(?<![\w.]){_re.escape(chan)}\b', lambda m_: comp, sv)
+                try:
+                    tree = ast.parse(comp, mode='eval').body
+                except SyntaxError:
+                    tree = None
+                outer = tree is not None and isinstance(tree, ast.Call) and norm(tree.func) == 'cls._replace_zeroes_with_silence'
+                names = [norm(c.func) for c in ast.walk(tree) if isinstance(c, ast.Call)] if tree is not None else []
+                allowed = {'cls._replace_zeroes_with_silence', 'utl.as_list', 'gpp.ugen_param'}
+                extra = [n_ for n_ in names if n_ not in allowed and not n_.endswith('._as_ugen_input')]
+                ctx.ob('C03.out', f'{mod.name}:{ci.qualname}.ar:flatten-chain',
+                       outer and f'utl.as_list({chan})' in comp and names.count('cls._replace_zeroes_with_silence') == 1 and not extra,
+                       f'audio output must make the argument a list (utl.as_list) and replace zeros last ({want[2]}) before _multi_new; '
+                       f'the passed channels are {comp}', f.node, mod)
             else:
                 ok = (steps == [f'utl.as_list({chan})'] and sv == chan) or (steps == [] and sv == f'utl.as_list({chan})')
                 ctx.ob('C03.out', f'{mod.name}:{ci.qualname}.kr:flatten', ok,
@@ -221,10 +240,26 @@ def rule_out(ctx):
     so = repo.cls('sc3.synth.ugen:SynthObject')
     f = so.methods['_replace_zeroes_with_silence']
     src = full(f.node)
-    ok = 'silence = lne.DC.ar(0)' in src and 'if isinstance(item, (int, float)) and item == 0.0: lst[i] = silence' in src \
-        and 'elif isinstance(item, list): lst[i] = cls._replace_zeroes_with_silence(item)' in src
+    lp = f.params[1]
+    ok = 'silence = lne.DC.ar(0)' in src and 'if isinstance(item, (int, float)) and item == 0.0: res.append(silence)' in src \
+        and 'elif isinstance(item, list): res.append(cls._replace_zeroes_with_silence(item))' in src and 'else: res.append(item)' in src \
+        and src.rstrip().endswith('return res')
     ctx.ob('C03.out', f'{so.module.name}:SynthObject._replace_zeroes_with_silence', ok,
-           'numeric zeros (deeply) become audio-rate DC(0)', f.node, so.module)
+           'numeric zeros (deeply) become audio-rate DC(0), every other item is kept, in order', f.node, so.module)
+    argument_untouched(ctx, 'C03.out')
+
+
+def argument_untouched(ctx, rid):
+    so = ctx.repo.cls('sc3.synth.ugen:SynthObject')
+    f = so.methods['_replace_zeroes_with_silence']
+    lp = f.params[1]
+    writes = [norm(x) for x in walk_local(f.node) if (isinstance(x, (ast.Assign, ast.AugAssign)) and any(
+        isinstance(t, ast.Subscript) and norm(t.value) == lp for t in (x.targets if isinstance(x, ast.Assign) else [x.target])))] + \
+        [norm(c) for c in U.calls(f.node) if isinstance(c.func, ast.Attribute) and norm(c.func.value) == lp and
+         c.func.attr in ('append', 'extend', 'insert', 'pop', 'remove', 'clear', 'sort', 'reverse', '__setitem__')]
+    ctx.ob(rid, f'{so.module.name}:SynthObject._replace_zeroes_with_silence:argument-untouched', not writes,
+           f'the list given (it may be a nested row owned by the caller of Out.ar or play) is written to by {writes}: a unit of this build '
+           f'ends up in an object that outlives it', f.node, so.module)
 
 
 SCALAR_COERCIONS = {'float', 'int', 'bool', 'round', 'abs', 'str'}
@@ -331,6 +366,9 @@ def run(ctx):
 
 
 MUTANTS = [
+    dict(rule='C03.out', name='zero replacement writes into the given list (fix reverted)', file='sc3/synth/ugen.py',
+         old="        res = []\n        for item in lst:\n            if isinstance(item, (int, float)) and item == 0.0:\n                res.append(silence)\n            elif isinstance(item, list):\n                res.append(cls._replace_zeroes_with_silence(item))\n            else:\n                res.append(item)\n        return res\n",
+         new="        for i, item in enumerate(lst):\n            if isinstance(item, (int, float)) and item == 0.0:\n                lst[i] = silence\n            elif isinstance(item, list):\n                lst[i] = cls._replace_zeroes_with_silence(item)\n        return lst\n"),
     dict(rule='C03.sync', name='convenience methods do not recurse into nested rows (fix reverted)', file='sc3/synth/ugen.py',
          old="        l = [\n            ChannelList(i) if isinstance(i, list) else gpp.ugen_param(i)\n            for i in self]\n", new="        l = [gpp.ugen_param(i) for i in self]\n"),
     dict(rule='C03.sync', name='(fix reverted) UGen.range computes on list bounds with Python operators', file='sc3/synth/ugen.py',
@@ -370,3 +408,9 @@ MUTANTS = [
 ]
 
 REPAIRS = []
+
+EQUIV = [
+    dict(name='Out.ar without the explicit unit-input conversion (seed C20-e after repo fix 10e8abb)', file='sc3/synth/ugens/inout.py',
+         old="        output = gpp.ugen_param(utl.as_list(output))\n        output = output._as_ugen_input(cls)\n        output = cls._replace_zeroes_with_silence(output)\n        cls._multi_new('audio', bus, *output)\n        # return 0.0  # // Out has no output.",
+         new="        output = utl.as_list(output)\n        output = cls._replace_zeroes_with_silence(output)\n        cls._multi_new('audio', bus, *output)\n        # return 0.0  # // Out has no output."),
+]
